@@ -181,6 +181,6 @@ def st_case(draw):
 
 
 COMPONENTS = [
-    Component("history_vs_accumulator", check, strategy=st_case, quick=4000, thorough=150000,
+    Component("history_vs_accumulator", check, strategy=st_case, quick=4000, thorough=150000, fuzz_runs=1500,
               rule="1..14 ops over 1..20 designs, m=1..3; indices as lists (repeats) or sets (incl. >=8 so set order != sorted)"),
 ]
